@@ -123,32 +123,48 @@ Definition is_running_obj (t : list kproc) (ru : list Z) (pid : Z) (ob : obj) : 
 
 (* attribute names are integer codes: 0 = 'pid' (never consults the OS), 2 = 'ppid'
    (Process.ppid() first calls _raise_if_pid_reused(), hence is_running()); the
-   members of [valid] are psutil._as_dict_attrnames; any other code is an invalid name *)
+   members of [valid] are psutil._as_dict_attrnames; any other code is an invalid name.
+   Codes >= 1000 stand for names whose platform method raises NotImplementedError on the running
+   system (the kernel lacks an optional record: e.g. num_ctx_switches when /proc/<pid>/status has no
+   *_ctxt_switches lines) -- which members of [valid] these are is arbitrary.
+   The code -1 inside the list stands for: the attrs argument is not a list / tuple / set / frozenset
+   (a generator, an iterator, a dict, a dict view, a str ...). *)
 Definition attrs_t := option (list Z).
 Definition PPID : Z := 2.
+Definition BADTYPE : Z := -1.
+Definition unimpl (a : Z) : bool := 1000 <=? a.
+(* 'if attrs: raise' -- a non-empty attrs names an unimplemented attribute *)
+Definition explicit_ni (l : list Z) : bool :=
+  match nodup Z.eq_dec l with [] => false | _ => existsb unimpl (nodup Z.eq_dec l) end.
 
-(* Process.as_dict(attrs=l) of object [ob] whose pid is [pid]: the keys of the returned dict (ascending),
-   ValueError for an invalid name, NoSuchProcess when a name other than 'pid' is
-   fetched and the pid is not in the table, or when 'ppid' is fetched and the object
-   does not denote the process that has the pid now.  Also returns the object and
-   _pids_reused afterwards.  OutOfModel: the iteration order of the name set decides
-   whether is_running() ran before another name raised. *)
+(* Process.as_dict(attrs=l) of object [ob] whose pid is [pid]: the keys of the returned dict (ascending).
+   TypeError when attrs is of an unsupported type; ValueError for an invalid name; NoSuchProcess when a
+   name other than 'pid' is fetched and the pid is not in the table, or when 'ppid' is fetched and the
+   object does not denote the process that has the pid now; NotImplementedError of a platform method:
+   re-raised when the caller named attributes (attrs non-empty), skipped ('continue': the key is
+   left out) when attrs is empty, i.e. all names were asked for.  Also returns the object and
+   _pids_reused afterwards.  OutOfModel: the iteration order of the name set decides which of two
+   effects happens first (is_running() of ppid vs an exception of another name). *)
 Definition as_dict (t : list kproc) (valid : list Z) (ru : list Z) (pid : Z) (ob : obj) (l : list Z)
   : outcome (list Z) * obj * list Z :=
+  if zmem BADTYPE l then (Exc TypeError, ob, ru) else           (* not isinstance(attrs, (list, tuple, set, frozenset)) *)
   let attrs := nodup Z.eq_dec l in                               (* attrs = set(attrs) *)
   if existsb (fun a => negb (zmem a valid)) attrs then (Exc ValueError, ob, ru)
   else
     let ls := match attrs with [] => valid | _ => attrs end in    (* ls = attrs or valid_names *)
+    let keys := zsort (filter (fun a => negb (unimpl a)) ls) in   (* except NotImplementedError: continue *)
     let other_os := existsb (fun a => negb (a =? 0) && negb (a =? PPID)) ls in
     let here := alive t pid in
     if zmem PPID ls then
-      if o_gone ob || o_reused ob then (Exc NoSuchProcess, ob, ru)   (* _raise_if_pid_reused() *)
+      if explicit_ni l then (OutOfModel, ob, ru)
+      else if o_gone ob || o_reused ob then (Exc NoSuchProcess, ob, ru)   (* _raise_if_pid_reused() *)
       else if other_os && negb here then (OutOfModel, ob, ru)
       else
         let '(r, ob', ru') := is_running_obj t ru pid ob in
-        if r then (Val (zsort ls), ob', ru') else (Exc NoSuchProcess, ob', ru')
+        if r then (Val keys, ob', ru') else (Exc NoSuchProcess, ob', ru')
     else if other_os && negb here then (Exc NoSuchProcess, ob, ru)
-    else (Val (zsort ls), ob, ru).
+    else if explicit_ni l then (Exc NotImplementedError, ob, ru)     (* if attrs: raise *)
+    else (Val keys, ob, ru).
 
 (* a process_iter() generator *)
 Inductive gen :=
